@@ -78,5 +78,5 @@ def _get_hash(binary: bytes) -> str:
 
     """
     # Remove specification of jupyter kernel from hash to be deterministic
-    binary_no_ipykernel = re.sub(b"(?<=/ipykernel_)(.*)(?=/)", b"", binary)
+    binary_no_ipykernel = re.sub(b"(?<=/ipykernel_)([0-9]+)(?=/)", b"", binary)
     return str(hashlib.md5(binary_no_ipykernel).hexdigest())
